@@ -381,4 +381,39 @@ theorem onRecvPacket_effect {cfg : Config} {c : Nat} {ch ch' : Chain} {data : Pa
     · intro x
       rw [hbk, hsup, Bank.mint_supply]
 
+theorem moveBal_lt {bal : Addr → Str → Nat} {f t : Addr} {k : Str} {n : Nat} {a : Addr} {x : Str}
+    (h : moveBal bal f t k n a x < bal a x) : a = f ∧ x = k := by
+  unfold moveBal at h
+  split_ifs at h <;> first | omega | exact ⟨by assumption, by assumption⟩
+
+theorem moveBal_gt {bal : Addr → Str → Nat} {f t : Addr} {k : Str} {n : Nat} {a : Addr} {x : Str}
+    (h : bal a x < moveBal bal f t k n a x) : a = t ∧ x = k := by
+  unfold moveBal at h
+  split_ifs at h <;> first | omega | exact ⟨by assumption, by assumption⟩
+
+theorem tokenFromCoin_cases {cfg : Config} {ch : Chain} {denom : Str} {tok : Denom}
+    (h : tokenFromCoin cfg ch denom = .ok tok) : tok = ⟨[], denom⟩ ∨ tok ∈ ch.denoms := by
+  unfold tokenFromCoin at h
+  split at h
+  · injection h with h; exact Or.inl h.symm
+  · split at h
+    · cases h
+    · split at h
+      · rename_i d hd
+        injection h with h
+        subst h
+        right
+        exact List.mem_of_find?_eq_some hd
+      · cases h
+
+theorem moveBal_inverse (b0 b2 : Addr → Str → Nat) (s e : Addr) (k : Str) (n : Nat)
+    (h0 : n ≤ b0 s k) (h2 : n ≤ b2 e k) (a : Addr) (x : Str) :
+    moveBal b2 e s k n a x + moveBal b0 s e k n a x = b2 a x + b0 a x := by
+  unfold moveBal
+  by_cases hx : x = k
+  · subst hx
+    by_cases has : a = s <;> by_cases hae : a = e <;> simp [has, hae] <;>
+      (try subst has) <;> (try subst hae) <;> simp_all <;> omega
+  · simp [hx]
+
 end IbcVerif.Ics20
